@@ -57,6 +57,10 @@ SET_HEAVY = {
     "class_members": "class K:\n    bAttr = 1\n    aAttr = 2\n    def zMeth(self):\n        return 1\n    def aMeth(self):\n        return 2\nprint(K().aMeth())\n",
     "missing_typing_names": "def f():\n    return Sequence, Mapping, Iterable, Callable, Optional, Tuple\nprint(f())\n",
     "star_import_many_names": "from os.path import *\nprint(basename('a/b'), dirname('a/b'), join('a', 'b'), sep, splitext('a.b'), exists('zz'))\n",
+    "overused_numbered_constants": "".join("print((1, 2, 3, 4, 5, 6, 7, 8, 9, %d), [10, 20, 30, 40, 50, 60, 70, 80], {'k': (100, 200, 300, 400, 500)})\n" % 0 for i in range(6)),
+    "overused_three_kinds": "".join("r%d = [(1.5, 2.5, 3.5, 4.5, 5.5, 6.5), (11, 22, 33, 44, 55, 66, 77), 'not-an-identifier string!!', b'bytes literal of some length']\n" % i for i in range(6)) + "print(r0, r5)\n",
+    "docstring_missing_imports": '"""Module docstring\n\nspanning several lines.\n"""\ndef f():\n    return os.sep, sys.argv, re.escape("."), json.dumps(1), math.pi, Path(".")\nprint(f())\n',
+    "docstring_missing_imports2": '"""Doc\nline two\n"""\nx = 1\ndef f():\n    return functools.partial, itertools.chain, collections.Counter, heapq.heapify, logging.info\nprint(f())\n',
     "preserve_like": "def aaa():\n    return 1\ndef bbb():\n    return 1\ndef ccc():\n    return 1\nprint(aaa(), bbb(), ccc())\n",
 }
 
